@@ -63,6 +63,8 @@ func genPlan(t *rapid.T, tier string) any {
 		p.Fifo = append(p.Fifo, rapid.IntRange(0, 4).Draw(t, "fifo") == 0)
 	}
 	procs := rapid.IntRange(1, 3).Draw(t, "procs")
+	// in a sixth of the plans some other program renames new files over the lock files
+	replacing := rapid.IntRange(0, 5).Draw(t, "replacing") == 0
 	ntasks := 0
 	for pr := 1; pr <= procs; pr++ {
 		ng := rapid.IntRange(1, 3).Draw(t, "goroutines")
@@ -73,6 +75,9 @@ func genPlan(t *rapid.T, tier string) any {
 			for k := 0; k < n; k++ {
 				op := Op{Path: rapid.IntRange(0, np-1).Draw(t, "path")}
 				op.Kind = rapid.SampledFrom([]string{"openfile", "openfile", "openfile", "open", "create", "edit", "mutex", "mutex", "read", "write", "transform"}).Draw(t, "kind")
+				if replacing && rapid.IntRange(0, 3).Draw(t, "replace") == 0 {
+					op.Kind = "replace"
+				}
 				if p.Fifo[op.Path] {
 					// a FIFO can only be opened O_RDWR without blocking in the kernel, and must
 					// not be read or written: handle-returning O_RDWR operations and Mutex only
@@ -162,10 +167,21 @@ func run(t *testing.T, plan any, keep bool) *simcheck.Outcome {
 			os.WriteFile(paths[i], []byte("initial\n"), 0o666)
 		}
 	}
+	hasReplace := false
+	for _, tp := range p.Tasks {
+		for _, op := range tp.Ops {
+			if op.Kind == "replace" {
+				hasReplace = true
+			}
+		}
+	}
 	holders := map[string][]holder{}
 	overlapRW, sharedReaders, contended := 0, 0, 0
 	acquire := func(path string, h holder) {
 		for _, o := range holders[path] {
+			if hasReplace {
+				break // locks exclude per file, not per name: with the name re-pointed the table by name says nothing
+			}
 			if o.write || h.write {
 				out.Violate("exclusion", "%s by task %d (proc %d) returned while %s by task %d (proc %d) still holds %s: a write lock must exclude every other holder",
 					h.what, h.task, h.proc, o.what, o.task, o.proc, filepath.Base(path))
@@ -349,17 +365,26 @@ func run(t *testing.T, plan any, keep bool) *simcheck.Outcome {
 							continue
 						}
 						acquire(path, holder{ti, tp.Proc, true, "Mutex.Lock"})
-						if sh, ex := simos.Holders(path); ex != 1 || sh != 0 {
+						if sh, ex := simos.Holders(path); !hasReplace && (ex != 1 || sh != 0) {
 							out.Violate("wrong-lock-mode", "%s Mutex.Lock returned but the kernel-side table shows %d exclusive and %d shared locks on the file", tag, ex, sh)
 						}
 						for k := 0; k < op.Hold; k++ {
 							simrt.Yield("hold")
 						}
-						if sh, ex := simos.Holders(path); ex != 1 || sh != 0 {
+						if sh, ex := simos.Holders(path); !hasReplace && (ex != 1 || sh != 0) {
 							out.Violate("lock-lost-before-close", "%s Mutex held, but the kernel-side table shows %d exclusive and %d shared locks", tag, ex, sh)
 						}
 						release(path, ti)
 						unlock()
+					case "replace":
+						// another program replaces the lock file by renaming a new file over its name
+						if op.Path < len(p.Fifo) && !p.Fifo[op.Path] {
+							simrt.Yield("replace")
+							tmp := path + ".new"
+							os.WriteFile(tmp, []byte("replacement\n"), 0o666)
+							os.Rename(tmp, path)
+							out.Count("probe_lock_file_replaced", 1)
+						}
 					case "read":
 						lockedfile.Read(path)
 					case "write":
